@@ -464,3 +464,11 @@ package action
 //@   props C03
 //@   trusted
 //@   ensures [hooks-non-nil] hooksNonNil(result0)
+
+// ---- C17: install/upgrade/pull with --verify: the chart path handed back was verified against the
+// configured keyring (local file: VerifyChart; remote: the downloader with VerifyAlways)
+
+//@ func (*ChartPathOptions).LocateChart
+//@   props C17
+//@   requires c != nil && settings != nil
+//@   ensures [verification-required-means-verified] old(c.Verify) && err == nil ==> (exists f string :: chartVerifiedBy(f, old(c.Keyring)) && (result == f || result == fabs(f)))
